@@ -1,3 +1,4 @@
+CONSTANTS MaxEntries = 2
 INIT Init
 NEXT Next
 CONSTRAINT Emit
